@@ -115,7 +115,7 @@ func runStoreHist(op M) any {
 				_ = os.Remove(p)
 			case "dir":
 				_ = os.Remove(p)
-				_ = os.Mkdir(p, 0o755)
+				_ = os.MkdirAll(p, 0o755) // also when the store directory does not exist yet
 			}
 			delete(stored, id)
 			outs = append(outs, "done")
